@@ -113,6 +113,22 @@ func bdbWithChain(first, next uint32) []byte {
 	return b
 }
 
+// paxRecords is an extended header member holding the records.
+func paxRecords(kv ...string) []byte {
+	var body []byte
+	for i := 0; i+1 < len(kv); i += 2 {
+		n := len(kv[i]) + len(kv[i+1]) + 3
+		l := len(fmt.Sprint(n))
+		if len(fmt.Sprint(n+l)) > l {
+			l++
+		}
+		body = append(body, fmt.Sprintf("%d %s=%s\n", n+l, kv[i], kv[i+1])...)
+	}
+	x := rawTarHeader("PaxHeaders.0/x", 'x', int64(len(body)), "", 0o644)
+	x = append(x, body...)
+	return append(x, make([]byte, (512-len(body)%512)%512)...)
+}
+
 func rpmLayer(path string, db func() []byte) func() []byte {
 	return func() []byte { return tarOf(lyFile{name: path, body: db()}) }
 }
@@ -167,6 +183,13 @@ var witnesses = []witness{
 	// (e) dpkg glob panic
 	{"dpkg-dir-with-bracket", func() []byte {
 		return tarOf(lyFile{name: "a[/", typ: '5'}, lyFile{name: "a[/info/", typ: '5'}, lyFile{name: "a[/status", body: []byte("Package: a\nStatus: install ok installed\nVersion: 1\nArchitecture: all\n\n")})
+	}},
+	// (e') dpkg parseStatus restarted forever on a read error: the PAX size of
+	// the status file is larger than its data
+	{"dpkg-status-pax-size-over-data", func() []byte {
+		status := []byte("Package: a\nStatus: install ok installed\nVersion: 1\nArchitecture: all\n\n")
+		return cat(rawTarHeader("var/lib/dpkg/", '5', 0, "", 0o755), rawTarHeader("var/lib/dpkg/info/", '5', 0, "", 0o755),
+			paxRecords("size", "600"), rawTarFile("var/lib/dpkg/status", status), rawTarEnd())
 	}},
 	// (f) apk scanner line[2:] panic
 	{"apk-lone-newline", func() []byte { return tarOf(lyFile{name: "lib/apk/db/installed", body: []byte("\n")}) }},
